@@ -13,12 +13,24 @@ open Aw Aw.Store
 /-- objects the store dict `st` refers to directly: metadata dicts and event objects -/
 def storeObjOf (st : Store) (r : Ref) : Prop := ∃ p ∈ st, r = p.2.1 ∨ r ∈ p.2.2
 
+/-- the data dict an object points to -/
+def cellRef : Cell → Option Ref
+  | .ev o => some o.dataRef
+  | .mdict o => some o.dataRef
+  | .dict _ => none
+
 /-- the data dict behind an event object or a metadata dict -/
 def dataRefOf (s : State) (r : Ref) : Option Ref :=
   match s.heap r with
   | some (.ev o) => some o.dataRef
   | some (.mdict o) => some o.dataRef
   | _ => none
+
+theorem dataRefOf_eq (s : State) (r : Ref) : dataRefOf s r = (s.heap r).bind cellRef := by
+  unfold dataRefOf
+  cases s.heap r with
+  | none => rfl
+  | some c => cases c <;> rfl
 
 /-- objects reachable from the root set `R`: the roots and the data dicts behind them -/
 def reach (R : Ref → Prop) (s : State) (r : Ref) : Prop :=
@@ -31,16 +43,19 @@ structure SepR (R : Ref → Prop) (s : State) : Prop where
   sep : ∀ r, reach R s r → s.client r = false
   bound : ∀ r, reach R s r → r < s.next
   fresh : ∀ r, s.next ≤ r → s.heap r = none ∧ s.client r = false
+  /-- the client holds the data dict of every object it holds (so it can mutate it) -/
+  closed : ∀ r, s.client r = true → ∀ d, dataRefOf s r = some d → s.client d = true
 
 /-- objects reachable from the store -/
 def storeReach (s : State) (r : Ref) : Prop := reach (storeObjOf s.store) s r
 
 /-- the separation invariant: no object reachable from the store is client-held (and everything
-    reachable is allocated, nothing beyond `next` is allocated or held) -/
+    reachable is allocated, nothing beyond `next` is allocated or held, and the client holds the
+    data dicts of the objects it holds) -/
 def Sep (s : State) : Prop := SepR (storeObjOf s.store) s
 
 theorem sep_init : Sep {} := by
-  refine ⟨?_, ?_, fun r _ => ⟨rfl, rfl⟩⟩ <;>
+  refine ⟨?_, ?_, fun r _ => ⟨rfl, rfl⟩, fun r hr => by cases hr⟩ <;>
   · intro r h
     rcases h with ⟨p, hp, _⟩ | ⟨x, ⟨p, hp, _⟩, _⟩ <;> cases hp
 
@@ -53,12 +68,12 @@ theorem SepR.mono {R R' : Ref → Prop} {s : State} (h : SepR R s) (hm : ∀ r, 
     rcases hr with hr | ⟨x, hx, hd⟩
     · exact Or.inl (hm r hr)
     · exact Or.inr ⟨x, hm x hx, hd⟩
-  exact ⟨fun r h' => h.sep r (hr r h'), fun r h' => h.bound r (hr r h'), h.fresh⟩
+  exact ⟨fun r h' => h.sep r (hr r h'), fun r h' => h.bound r (hr r h'), h.fresh, h.closed⟩
 
 /-- the store dict is not part of `SepR` -/
 theorem SepR.setStore {R : Ref → Prop} {s : State} (h : SepR R s) (st : Store) :
     SepR R { s with store := st } :=
-  ⟨fun r hr => h.sep r hr, fun r hr => h.bound r hr, h.fresh⟩
+  ⟨fun r hr => h.sep r hr, fun r hr => h.bound r hr, h.fresh, h.closed⟩
 
 theorem dataRefOf_alloc {s : State} {c : Cell} {x : Ref} (hx : x ≠ s.next) :
     dataRefOf (alloc s c).1 x = dataRefOf s x := by
@@ -73,8 +88,20 @@ theorem reach_alloc {R : Ref → Prop} {s : State} (h : SepR R s) (c : Cell) {r 
     exact Or.inr ⟨x, hx, hd⟩
 
 /-- a newly allocated object is garbage: neither reachable from the roots nor held -/
+theorem SepR.held_lt {R : Ref → Prop} {s : State} (h : SepR R s) {r : Ref} (hr : s.client r = true) :
+    r < s.next := by
+  rcases Nat.lt_or_ge r s.next with hlt | hge
+  · exact hlt
+  · have := (h.fresh r hge).2
+    rw [hr] at this
+    cases this
+
 theorem SepR.alloc {R : Ref → Prop} {s : State} (h : SepR R s) (c : Cell) : SepR R (Heap.alloc s c).1 := by
-  refine ⟨fun r hr => h.sep r (reach_alloc h c hr), fun r hr => ?_, fun r hr => ?_⟩
+  refine ⟨fun r hr => h.sep r (reach_alloc h c hr), fun r hr => ?_, fun r hr => ?_, fun r hr d hd => ?_⟩
+  rotate_left 2
+  · have hr' : s.client r = true := hr
+    rw [dataRefOf_alloc (Nat.ne_of_lt (h.held_lt hr'))] at hd
+    exact h.closed r hr' d hd
   · have := h.bound r (reach_alloc h c hr)
     show r < s.next + 1
     grind
@@ -86,10 +113,24 @@ theorem SepR.alloc {R : Ref → Prop} {s : State} (h : SepR R s) (c : Cell) : Se
     exact this.1
 
 /-- a newly allocated object that the client holds -/
-theorem SepR.allocHeld {R : Ref → Prop} {s : State} (h : SepR R s) (c : Cell) :
+theorem SepR.allocHeld {R : Ref → Prop} {s : State} (h : SepR R s) (c : Cell)
+    (hcl : ∀ d, cellRef c = some d → s.client d = true) :
     SepR R (Heap.allocHeld s c).1 := by
   have h1 := h.alloc c
-  refine ⟨fun r hr => ?_, fun r hr => h1.bound r hr, fun r hr => ?_⟩
+  refine ⟨fun r hr => ?_, fun r hr => h1.bound r hr, fun r hr => ?_, fun r hr d hd => ?_⟩
+  rotate_left 2
+  · have hr' : (decide (r = s.next) || s.client r) = true := hr
+    have hd' : dataRefOf (Heap.alloc s c).1 r = some d := hd
+    show (decide (d = s.next) || s.client d) = true
+    by_cases he : r = s.next
+    · subst he
+      have : cellRef c = some d := by
+        rw [dataRefOf_eq] at hd'
+        simpa [Heap.alloc] using hd'
+      rw [hcl d this, Bool.or_true]
+    · simp only [he, decide_false, Bool.false_or] at hr'
+      rw [dataRefOf_alloc he] at hd'
+      rw [h.closed r hr' d hd', Bool.or_true]
   · have hr' : reach R (Heap.alloc s c).1 r := hr
     have hb := h.bound r (reach_alloc h c hr')
     show (decide (r = s.next) || s.client r) = false
@@ -114,7 +155,7 @@ theorem SepR.adopt {R : Ref → Prop} {s : State} (h : SepR R s) {r : Ref} (hc :
     · exact Or.inr (Or.inl hy)
     · exact Or.inl (Or.inr ⟨x, hx, hxd⟩)
     · subst hx; exact Or.inr (Or.inr hxd)
-  refine ⟨fun y hy => ?_, fun y hy => ?_, h.fresh⟩
+  refine ⟨fun y hy => ?_, fun y hy => ?_, h.fresh, h.closed⟩
   · rcases key y hy with hy | rfl | hy
     · exact h.sep y hy
     · exact hc
@@ -154,13 +195,24 @@ theorem SepR.deepMeta {R : Ref → Prop} {s : State} (h : SepR R s) (o : MetaObj
   simp [dataRefOf, Heap.alloc] at hd
   exact hd.symm
 
+theorem client_allocHeld_self (s : State) (c : Cell) : (Heap.allocHeld s c).1.client s.next = true := by
+  simp [Heap.allocHeld, Heap.alloc, Heap.hold]
+
 theorem SepR.handOutEv {R : Ref → Prop} {s : State} (h : SepR R s) (o : EvObj) :
-    SepR R (Heap.handOutEv s o).1 :=
-  (h.allocHeld _).allocHeld _
+    SepR R (Heap.handOutEv s o).1 := by
+  refine (h.allocHeld (.dict (textAt s o.dataRef)) (fun d hd => by cases hd)).allocHeld _ ?_
+  intro d hd
+  simp only [cellRef, Option.some.injEq] at hd
+  subst hd
+  exact client_allocHeld_self s _
 
 theorem SepR.handOutMeta {R : Ref → Prop} {s : State} (h : SepR R s) (o : MetaObj) :
-    SepR R (Heap.handOutMeta s o).1 :=
-  (h.allocHeld _).allocHeld _
+    SepR R (Heap.handOutMeta s o).1 := by
+  refine (h.allocHeld (.dict (textAt s o.dataRef)) (fun d hd => by cases hd)).allocHeld _ ?_
+  intro d hd
+  simp only [cellRef, Option.some.injEq] at hd
+  subst hd
+  exact client_allocHeld_self s _
 
 theorem dataRefOf_write {s : State} {r x : Ref} {c : Cell} (hx : x ≠ r) :
     dataRefOf (write s r c) x = dataRefOf s x := by
@@ -168,7 +220,7 @@ theorem dataRefOf_write {s : State} {r x : Ref} {c : Cell} (hx : x ≠ r) :
 
 /-- the client overwrites an object it holds -/
 theorem SepR.writeHeld {R : Ref → Prop} {s : State} (h : SepR R s) {r : Ref} (hc : s.client r = true)
-    (c : Cell) : SepR R (write s r c) := by
+    (c : Cell) (hcl : ∀ d, cellRef c = some d → s.client d = true) : SepR R (write s r c) := by
   have hne : ∀ x, R x → x ≠ r := by
     intro x hx he
     have := h.sep x (Or.inl hx)
@@ -180,7 +232,19 @@ theorem SepR.writeHeld {R : Ref → Prop} {s : State} (h : SepR R s) {r : Ref} (
     · exact Or.inl hy
     · rw [dataRefOf_write (hne x hx)] at hd
       exact Or.inr ⟨x, hx, hd⟩
-  refine ⟨fun y hy => h.sep y (hr y hy), fun y hy => h.bound y (hr y hy), fun y hy => ?_⟩
+  refine ⟨fun y hy => h.sep y (hr y hy), fun y hy => h.bound y (hr y hy), fun y hy => ?_,
+    fun x hx d hd => ?_⟩
+  rotate_left
+  · have hx' : s.client x = true := hx
+    show s.client d = true
+    by_cases he : x = r
+    · subst he
+      have : cellRef c = some d := by
+        rw [dataRefOf_eq] at hd
+        simpa [write] using hd
+      exact hcl d this
+    · rw [dataRefOf_write he] at hd
+      exact h.closed x hx' d hd
   have hf := h.fresh y hy
   refine ⟨?_, hf.2⟩
   have : y ≠ r := by
@@ -203,7 +267,16 @@ theorem SepR.writeRoot {R : Ref → Prop} {s : State} (h : SepR R s) {r : Ref} (
       · subst he; exact Or.inr hxd
       · rw [dataRefOf_write he] at hxd
         exact Or.inl (Or.inr ⟨x, hx, hxd⟩)
-  refine ⟨fun y hy => ?_, fun y hy => ?_, fun y hy => ?_⟩
+  refine ⟨fun y hy => ?_, fun y hy => ?_, fun y hy => ?_, fun x hx d hxd => ?_⟩
+  rotate_left 3
+  · have hx' : s.client x = true := hx
+    have he : x ≠ r := by
+      intro he
+      have := h.sep r (Or.inl hr)
+      rw [← he, hx'] at this
+      cases this
+    rw [dataRefOf_write he] at hxd
+    exact h.closed x hx' d hxd
   · rcases key y hy with hy | hy
     · exact h.sep y hy
     · exact (hd y hy).1
